@@ -77,12 +77,14 @@ enum OpKind {
         OP_SETVAR,
         OP_DRAIN,
         OP_QUIESCE,
+        OP_QAPI, // a: 0 cat_is_busy, 1 cat_is_hold, 2 cat_is_unsolicited_buffer_full
 };
 
 struct Op {
         int kind = OP_SVC;
         int64_t a = 0, b = 0, c = 0, d = 0;
         bytes data;
+        int thr = 0; // C17: thread that executes the op (0 = service thread)
         // OP_IN: data
         // OP_SVC: a = count          OP_SVCQ: a = max calls
         // OP_RX_STALL: a = attempts  OP_RX_PAT: a = sub-seed, b = permille, c = max burst
@@ -109,6 +111,7 @@ struct Plan {
         bool probe_ok = false; // after every cat_service()==OK run a quiescence probe
         bool scribble = false; // refused reads scribble on *ch (C03 only)
         int lockfail = -1, unlockfail = -1; // C16: index of the lock / unlock call that fails
+        uint64_t sched = 0; // C17: seed of the thread scheduler (0 = single-threaded plan)
         std::vector<GroupSpec> groups;
         std::vector<CmdSpec> cmds;
         std::vector<Op> ops;
